@@ -370,6 +370,7 @@ fn run_case(case: &Case, obs: &mut Obs) -> Result<(), Failure> {
 }
 
 pub fn run(ctx: &mut Ctx) {
+    ctx.enable_crash_sentinel();
     ctx.assume("the simulated header-ex client restates the real client's contract: !is_valid() => InvalidRequest; else the available prefix (>= 1 header, optionally capped by the server) or HeaderNotFound");
     ctx.assume("'promptly' for amount 0 = resolves within 1000 simulated requests / 60 virtual seconds (paused tokio clock)");
     ctx.assume("for amounts the network cannot serve completely (and huge amounts) only the absence of a panic within the same budget is asserted");
